@@ -200,3 +200,59 @@ func Harness_C06_torn_recursive_remove() {
 	vm.Assert("C06.unrelated_entry_untouched", keep != nil && keep.Deleted != 1 && keep.Size == 2)
 	vm.Cover("C06.some_delete_records_complete", k > 0)
 }
+
+// Harness_C06_torn_directory_rename: the last call renamed a directory with two entries (one MOVE record each, in one
+// archive) and the tape is cut behind the k-th of those records, at the record boundary or at any byte inside the next
+// record's header blocks. A rebuild is silent; the entries whose MOVE record is complete are under their new names and
+// every other entry is exactly where it was before the call, with its size.
+func Harness_C06_torn_directory_rename() {
+	vm.SetUnwind(16)
+	v := verifNewFS(config.PipeConfig{}, false, true)
+	v.rootOnly()
+	v.Env.AddEntry("/d", tar.TypeDir, 0, false, "")
+	v.Env.AddEntry("/d/g", tar.TypeReg, 3, false, "")
+	v.Env.AddEntry("/d/h", tar.TypeReg, 0, false, "")
+	v.Env.AddEntry("/keep", tar.TypeReg, 2, false, "")
+	t := v.Env.Tape
+	before := len(t.Segs)
+	rerr := v.FS.Rename("/d", "/e")
+	vm.Assert("C06.rename_ok", rerr == nil)
+	if rerr != nil {
+		return
+	}
+	var moves []*vm.Seg
+	for _, g := range t.Segs[before:] {
+		if g.Kind == vm.SegMember {
+			moves = append(moves, g)
+		}
+	}
+	vm.Assert("C06.rename_wrote_one_record_per_entry", len(moves) == 3)
+	if len(moves) != 3 {
+		return
+	}
+	k := vm.Choice("completeRecords", 3) // 0, 1 or 2 of the three MOVE records survive completely
+	cut := moves[k].Start + vm.Int64("cut", 0, 512*3-1)
+	t.CutAt(cut)
+	vm.UnwindIsViolation("C06.rebuild_terminates")
+	idx, err := c01Rebuild(v)
+	vm.UnwindIsViolation("")
+	vm.Assert("C06.cut_between_move_records_is_silent", err == nil)
+	rows := idx.VerifRows()
+	olds := []string{"/d", "/d/g", "/d/h"}
+	sizes := []int64{0, 3, 0}
+	for i, g := range moves {
+		newRow, oldRow := c06Row(rows, g.Hdr.Name), c06Row(rows, g.Hdr.PAXRecords["STFS.ReplacesName"])
+		_ = olds
+		if i < k {
+			vm.Assert("C06.complete_move_record_applied", newRow != nil && newRow.Deleted != 1 && oldRow == nil)
+		} else {
+			vm.Assert("C06.entry_behind_the_cut_keeps_its_name", oldRow != nil && oldRow.Deleted != 1 && newRow == nil)
+			if oldRow != nil {
+				vm.Assert("C06.entry_behind_the_cut_keeps_its_size", oldRow.Size == sizes[i])
+			}
+		}
+	}
+	keep := c06Row(rows, "/keep")
+	vm.Assert("C06.unrelated_entry_untouched_by_torn_rename", keep != nil && keep.Deleted != 1 && keep.Size == 2)
+	vm.Cover("C06.some_move_records_complete", k > 0)
+}
